@@ -15,6 +15,7 @@ pub mod c11;
 pub mod c12;
 pub mod c13;
 pub mod c14;
+pub mod c14_syscell;
 pub mod c15;
 mod c15_hash;
 mod c15_json;
